@@ -4,7 +4,7 @@
 
 use crate::gen;
 use crate::trapemu::{self, K};
-use crate::util::{catch, Args, Report, Rng, J};
+use crate::util::{catch, catch_msg, Args, Report, Rng, J};
 use core::ops::Bound;
 use x86_64::structures::gdt::SegmentSelector;
 use x86_64::structures::idt::{Entry, HandlerFunc, InterruptDescriptorTable, InterruptStackFrame, PageFaultErrorCode};
@@ -309,6 +309,8 @@ fn gates(rep: &mut Report, r: &mut Rng, n: u64) {
         let steps = r.below(8);
         let mut log: Vec<J> = Vec::new();
         for _ in 0..steps {
+            // every documented argument is accepted: a panic in a setter is a finding about the setter
+            let stepres = catch_msg(|| {
             let e = &mut idt[v];
             let which = r.below(5);
             // re-borrow the options through set_handler_addr's return value is not possible twice; use the documented
@@ -348,11 +350,17 @@ fn gates(rep: &mut Report, r: &mut Rng, n: u64) {
                     log.push(J::s(format!("set_stack_index({})", i)));
                 }
                 _ => {
-                    let s = r.next() as u16;
+                    // all selectors: also the null selector, entry 0 of the LDT (4..=7), the top of the range
+                    let s = match r.below(4) { 0 => r.below(8) as u16, 1 => 0xfff8 | r.below(8) as u16, _ => r.next() as u16 };
                     unsafe { opts.set_code_selector(SegmentSelector(s)) };
                     sh.selector = s;
                     log.push(J::s(format!("set_code_selector({:#x})", s)));
                 }
+            }
+            });
+            if let Err(m) = stepres {
+                rep.violation("EntryOptions|setter-panicked-on-a-documented-argument", J::obj(vec![("vector", J::U(v as u64)), ("ops", J::A(log.clone())), ("shadow_selector", J::hex(sh.selector as u64)), ("panic", J::s(m))]));
+                break;
             }
             let g = decode(&entry_bytes(&idt[v]));
             if g != sh {
@@ -439,6 +447,32 @@ fn typed_handlers(rep: &mut Report) {
     rep.class("typed-handlers");
 }
 
+/// An `Entry` is a value of alignment 4 that may live anywhere - copied out, on the stack, in an array of a per-CPU
+/// structure: `set_handler_addr` encodes the gate at every placement, not only inside a 16-byte aligned table.
+fn standalone_entries(rep: &mut Report, r: &mut Rng) {
+    #[cfg(not(miri))]
+    trapemu::install();
+    let cs = own_cs();
+    let mut buf: Vec<u32> = vec![0; 64];
+    for k in 0..8usize {
+        rep.eval();
+        let p = unsafe { buf.as_mut_ptr().add(k) } as *mut Entry<HandlerFunc>; // every phase modulo 16 in steps of 4
+        let (a, _) = gen::canon(r);
+        unsafe { p.write(Entry::missing()) };
+        crate::util::fault_means_if("C12", "set_handler_addr|standalone-entry|fault-or-abort".into(), J::obj(vec![("entry_address_mod_16", J::U((p as u64) & 15)), ("profile", J::s(crate::util::profile_name()))]), |_| true);
+        let res = catch_msg(|| unsafe {
+            (*p).set_handler_addr(VirtAddr::new(a));
+        });
+        crate::util::fault_means_nothing();
+        let bytes: [u8; 16] = unsafe { core::ptr::read_unaligned(p as *const [u8; 16]) };
+        let g = decode(&bytes);
+        if res.is_err() || g != (Gate { offset: a, selector: cs, ist: 0, zero1: 0, typ: 0xE, zero2: 0, dpl: 0, present: true, reserved: 0 }) {
+            rep.violation("set_handler_addr|standalone-entry|not-the-architectural-gate", J::obj(vec![("entry_address_mod_16", J::U((p as u64) & 15)), ("handler", J::hex(a)), ("gate", J::s(format!("{:x?}", g))), ("panic", J::s(format!("{:?}", res.err())))]));
+        }
+        rep.class(&format!("standalone-entry|address-mod-16={}", (p as u64) & 15));
+    }
+}
+
 fn load(rep: &mut Report) {
     let idt = Box::new(InterruptDescriptorTable::new());
     let base = &*idt as *const _ as u64;
@@ -460,6 +494,9 @@ pub fn run(a: &Args, rep: &mut Report) {
     #[cfg(not(miri))]
     trapemu::install();
     let mut r = Rng::derive(a.seed, "c12", a.shard);
+    if !cfg!(miri) {
+        standalone_entries(rep, &mut r);
+    }
     if cfg!(miri) {
         // structure code only: raw-byte layout of the table and Index<u8>
         layout(rep);
